@@ -10,6 +10,7 @@
 // pointer shows up as a wrong cell value), and the number of live blocks is
 // part of the canonical output.  Memory still comes from malloc, so ASan's
 // red zones stay in effect in the thorough tier.
+#include <type_traits>
 #include <pops/raster.hpp>
 #include <cmath>
 #include <cstdint>
@@ -446,6 +447,24 @@ void case_CS(int k, const std::string& mode, const std::string& op, Cur& c)
         c.next();
         S s = parse_num<S>(c.next());
         std::string st = guarded([&] {
+            // when the scalar has the raster's element type and equals one of its cells, pass
+            // THAT CELL (an lvalue inside the raster's own storage) instead of a copy
+            if constexpr (std::is_same<A, S>::value) {
+                for (int i = 0; i < a.r->rows(); i++)
+                    for (int j = 0; j < a.r->cols(); j++)
+                        if ((*a.r)(i, j) == s) {
+                            const A& own = (*a.r)(i, j);
+                            if (op == "add")
+                                *a.r += own;
+                            else if (op == "sub")
+                                *a.r -= own;
+                            else if (op == "mul")
+                                *a.r *= own;
+                            else
+                                *a.r /= own;
+                            return std::string();
+                        }
+            }
             compound_scalar(op, *a.r, s);
             return std::string();
         });
